@@ -141,6 +141,22 @@ def check_chk(crate, rep, cfg):
                                         not any(True for _ in find_aggs(b, "std::result::Result", "Ok", blocks=sorted(region - b.reach_from(
                                             [x for x in b.succ[sb] if x != tgt])))):
                                     ok = True
+            if not ok:
+                # `x.checked_op(y).map(..).ok_or_else(|| Error..)?`: None becomes Err by ok_or*, and the `?` returns it
+                cur, hops, via_ok_or = dest, 0, False
+                while hops < 4:
+                    nxt = None
+                    for b3, t3 in b.calls():
+                        if t3["args"] and t3["args"][0]["k"] in ("copy", "move") and not t3["args"][0]["pl"]["p"] and t3["args"][0]["pl"]["l"] == cur:
+                            nm = callee_def(t3).rsplit("::", 1)[-1]
+                            if nm in ("map", "ok_or_else", "ok_or") and "Option" in callee_def(t3):
+                                via_ok_or = via_ok_or or nm.startswith("ok_or")
+                                nxt = t3["dest"]["l"]
+                            elif nm == "branch" and via_ok_or:
+                                ok = True
+                    if nxt is None or ok:
+                        break
+                    cur, hops = nxt, hops + 1
             key = "C13.CHK:%s:%s#%d:none->err" % (b.path, callee_def(t).rsplit("::", 1)[-1], k)
             what = "the None edge of %s leads to an Err (never to a substituted value)" % callee_def(t).rsplit("::", 1)[-1]
             (rep.ok if ok else rep.bad)("C13.CHK", key, b.where(bb), what if ok else what + " — VIOLATED")
@@ -185,6 +201,9 @@ def check_callee(crate, rep, cfg):
                     for f in fl:
                         if f[0] == "call" and f[1].endswith("Number::is_zero") and f[3] is False and b.dominates(tgt, db) and tgt != sb:
                             dom = True
+            if not dom:
+                import rrec
+                dom = bool(rrec.gate_call_establishes(b, db, crate, lambda f, h: f[0] == "call" and f[1].endswith("Number::is_zero") and f[3] is False))
             ok = ok and dom
         key = "C13.CALLEE:%s:zero-test" % name
         what = "every division in number::%s is dominated by the false edge of `right.is_zero()` (zero => Err)" % name
